@@ -571,12 +571,16 @@ impl World {
         let (idx, stage) = m.verif_data_index();
         let have: BTreeSet<String> = idx.into_iter().map(|x| x.0).chain(stage.into_iter()).collect();
         let mut missing = vec![];
+        let mut missing_staged = vec![];
         for u in m.get_all_objects() {
-            for (rev, _, _) in m.verif_tree_dump(&u).unwrap_or_default() {
+            for (rev, _, staged) in m.verif_tree_dump(&u).unwrap_or_default() {
                 let dg = rev.splitn(2, '-').nth(1).unwrap_or("").split('_').next().unwrap_or("").to_string();
                 let special = dg == "d" || dg == "r" || dg == "e" || (dg.len() <= 8 && u32::from_str_radix(&dg, 16).is_ok());
                 if !special && !have.contains(&dg) {
                     missing.push(format!("{} of {}", rev, u));
+                    if staged {
+                        missing_staged.push(format!("{} of {}", rev, u));
+                    }
                 }
             }
         }
@@ -599,6 +603,9 @@ impl World {
             self.fail("C04", w.clone());
             self.fail("C03", w.clone());
             self.fail("C09", w);
+        }
+        if !missing_staged.is_empty() {
+            self.fail("C15", format!("staged revisions without a staged body (residue of discarded changes: the staged state can neither be exported nor committed whole): {:?}", &missing_staged[..missing_staged.len().min(3)]));
         }
     }
 
